@@ -74,6 +74,20 @@ pub fn wl_c03(seed: u64, tier: &str) -> Vec<Vec<Value>> {
                                   "check_order": i % 6 == 0,
                                   "cls": format!("bilin/a={}/b={}/{}/{}", ca, cb, cp, cq)})]);
     }
+    // several pairs in one call, identities before / between / after real pairs (the pairing of a list
+    // is the product of the pairings; an identity pair contributes one and nothing else)
+    {
+        let mut ops = vec![];
+        for (a, b) in [(vec![0i64, 1], vec![1i64, 1]), (vec![1, 2], vec![0, 1]), (vec![2, 0, 1], vec![1, 1, 3]),
+                       (vec![0, 0, 2], vec![0, 1, 1]), (vec![1, 0], vec![1, 1]), (vec![1, -1, 0, 2], vec![2, 2, 5, 1])].iter() {
+            ops.push(json!({"op": "pairl", "fn": "miller", "as": a, "bs": b, "cls": "list-with-identity"}));
+            ops.push(json!({"op": "pairl", "fn": "pmulti", "as": a, "bs": b, "cls": "list-with-identity"}));
+            if a.len() == 2 {
+                ops.push(json!({"op": "pairl", "fn": "pprod", "as": a, "bs": b, "cls": "list-with-identity"}));
+            }
+        }
+        sessions.push(ops);
+    }
     // adjacency on ONE thread: the same pair (P, Q) under every combination of multipliers whose images
     // share an abscissa (-1), an ordinate (lambda, lambda^2) or both with P resp. Q - whatever a routine
     // remembers about the previous call (by x, by y, by prefix) is wrong for the next one
@@ -157,13 +171,26 @@ pub fn wl_c11(seed: u64, tier: &str) -> Vec<Vec<Value>> {
         let b: Vec<i64> = (0..*len).map(|_| r.below(7) as i64 - 3).collect();
         lists.push((a, b));
     }
+    // repeated values on either side in every arrangement of up to three distinct values over five
+    // positions that has two different repeated values (a helper that shares work between equal
+    // inputs must map every position to the right shared item)
+    for pat in [[0usize, 0, 1, 1, 2], [0, 0, 1, 2, 1], [0, 1, 0, 2, 2], [0, 1, 1, 0, 2], [0, 1, 0, 1, 2], [0, 0, 1, 1, 1],
+                [0, 1, 2, 1, 0], [0, 0, 0, 1, 1]].iter() {
+        let vals = [2i64, -3, 1];
+        let other = [1i64, 2, 3, -1, -2];
+        let rep: Vec<i64> = pat.iter().map(|k| vals[*k]).collect();
+        lists.push((other.to_vec(), rep.clone()));          // repeated G2 values
+        lists.push((rep.clone(), other.to_vec()));          // repeated G1 values
+        lists.push((rep.clone(), rep.iter().rev().cloned().collect())); // both sides
+        lists.push((other[..4].to_vec(), rep[..4].to_vec()));
+    }
     // explicit cancellations: sum a_i b_i = 0
     lists.push((vec![1, -1], vec![2, 2]));
     lists.push((vec![2, 1, -3], vec![3, 3, 3]));
     lists.push((vec![1, 1, -2, 0], vec![1, 1, 1, 5]));
     for (i, (a, b)) in lists.iter().enumerate() {
         ops.push(json!({"op": "pairl", "fn": "miller", "as": a, "bs": b, "cls": format!("list-len{}", a.len())}));
-        if i % 3 == 0 || a.len() > 10 {
+        if i % 3 == 0 || a.len() > 3 {
             ops.push(json!({"op": "pairl", "fn": "pmulti", "as": a, "bs": b, "cls": format!("multi-len{}", a.len())}));
         }
         if a.len() == 2 {
@@ -278,6 +305,42 @@ pub fn wl_c12(seed: u64, tier: &str) -> Vec<Vec<Value>> {
     }
     for (f, cls) in direct {
         sessions.push(vec![json!({"op": "finalexp", "f": f, "cls": cls})]);
+    }
+    // g^(q^k) / g for k = 1, 2, 3 (norm one down to Fq, Fq2, Fq4 resp. - unitary at one level only), and
+    // unit-circle elements of the subfields
+    {
+        use ff::Field;
+        use pairing::bls12_381::{Fq12, Fq2, Fq6};
+        let mut ops = vec![];
+        for i in 0..(if thorough { 4 } else { 1 }) {
+            let g0 = Fq12::from_j(&rand_f12(&mut r, &fq));
+            for k in [1usize, 2, 3, 4].iter() {
+                let mut f = g0;
+                f.frobenius_map(*k);
+                f.mul_assign(&g0.inverse().unwrap());
+                let cls = format!("frobenius{}-quotient", k);
+                ops.push(json!({"op": "finalexp", "f": f.to_j(), "cheap": true, "cls": cls}));
+                ops.push(json!({"op": "ferel", "f": f.to_j(), "g": rand_f12(&mut r, &fq), "cls": cls}));
+                if i == 0 && *k == 1 {
+                    sessions.push(vec![json!({"op": "finalexp", "f": f.to_j(), "cls": format!("{}-direct", cls)})]);
+                }
+            }
+            // unit circle of Fq2 and norm-one elements of Fq6 over Fq2, embedded
+            let a = Fq2::from_j(&rand_f2(&mut r, &fq));
+            let mut u2 = a;
+            u2.frobenius_map(1);
+            u2.mul_assign(&a.inverse().unwrap());
+            ops.push(json!({"op": "finalexp", "f": json!([[u2.to_j(), z2, z2], z6]), "cls": "Fq2-unit-circle"}));
+            let b = Fq6::from_j(&rand_f6(&mut r, &fq));
+            let mut u6 = b;
+            u6.frobenius_map(1);
+            u6.mul_assign(&b.inverse().unwrap());
+            ops.push(json!({"op": "finalexp", "f": json!([u6.to_j(), z6]), "cls": "Fq6-frobenius-quotient"}));
+            let mut f = Fq12::from_j(&json!([[u2.to_j(), z2, z2], [z2, rand_f2(&mut r, &fq), z2]]));
+            f.mul_assign(&g0);
+            ops.push(json!({"op": "ferel", "f": f.to_j(), "g": json!([[u2.to_j(), z2, z2], z6]), "cls": "Fq2-unit-circle"}));
+        }
+        sessions.push(ops);
     }
     // products of an element of a proper subfield (Fq, Fq2, Fq4 = Fq2(v w), Fq6) with a unitary element:
     // their norm down to Fq6 lies in a smaller field without being 1
